@@ -79,6 +79,9 @@ def hmsg(addr, v):
     return "%s~%s~%s" % (addr, t, v[1].hex())
 
 
+NO_POSINF = False      # C13 switches +infinity off: a file holding it does not scan (C12-K9), so it has no messages to permute
+
+
 def rand_msg_val(rng, it, stats):
     k = it.kind
     f = it.f
@@ -111,6 +114,9 @@ def rand_msg_val(rng, it, stats):
             return ("f", rng.choice([0x00000001, 0x80000001, 0x00800000, 0x80800000, 0x358637bd, 0xb58637bd, 0x33d6bf95]))
         if rng.random() < 0.3:
             return ("f", rng.choice(FLT_EDGE))
+        if rng.random() < 0.04:
+            stats["inf_floats"] = stats.get("inf_floats", 0) + 1
+            return ("f", 0xff800000 if NO_POSINF or rng.random() < 0.5 else 0x7f800000)
         return SA.fval(rng.choice(SA.DYADIC) * rng.choice([1, 1, 1, 4, 100]))
     if k == "T":
         return SA.bval(rng.random() < 0.5)
@@ -121,11 +127,15 @@ def rand_msg_val(rng, it, stats):
             return ("S", rng.choice(f["opts"]).encode())
         if r < 0.9:
             return ("i", rng.randrange(n))
-        if r < 0.95:
+        if r < 0.94:
             return ("c", rng.randrange(n))
+        if r < 0.96:
+            # a symbol the port does not know: enum_key gives INT_MIN, which the callback stores
+            stats["unknown_symbols"] = stats.get("unknown_symbols", 0) + 1
+            return ("S", rng.choice([b"zz", b"", f["opts"][0].encode() + b"x", f["opts"][-1].encode()[:-1]]))
         return ("i", rng.choice([n, n + 3, -1, 77]))
     if k == "Z":
-        n = rng.choice([0, 1, 2, 3, f["len"] - 2, f["len"] - 1, f["len"], f["len"] + 5, 30])
+        n = rng.choice([0, 1, 2, 3, f["len"] - 2, f["len"] - 1, f["len"], f["len"] + 5, 30, f["len"] // 2, 250, 260])
         return ("s", bytes(rng.choice(STR_ALPH) for _ in range(max(0, n))))
     raise ValueError(k)
 
@@ -162,6 +172,22 @@ def gen_history(rng, app, stats, maxlen, lens=(0, 1, 1, 2, 3, 5, 8, 12, 20)):
                 else:
                     v = SA.bval(ab)
                 msgs.append(hmsg(it.addr, v))
+    if n and rng.random() < 0.3:
+        # walk down a dependency chain: some ancestors of one parameter, top first, then the parameter itself; the
+        # ancestors that are left out stay at their (preset-dependent) defaults and are absent from the file
+        deep = [x for x in app.insts if len(x.ancs) >= 2]
+        if deep:
+            it = rng.choice(deep)
+            ancs = sorted(it.ancs, key=lambda j: app.rank[j])
+            keep = [j for j in ancs if rng.random() < rng.choice([0.15, 0.4, 0.8])]
+            if rng.random() < 0.6 and ancs[0] not in keep:
+                keep.insert(0, ancs[0])
+            stats["chain_walks"] = stats.get("chain_walks", 0) + 1
+            stats["chain_skipped_max"] = max(stats.get("chain_skipped_max", 0), len(ancs) - len(keep))
+            for j in keep + [it.idx]:
+                x = app.insts[j]
+                v = ("T",) if x.kind == "T" and rng.random() < 0.8 else rand_msg_val(rng, x, stats)
+                msgs.append(hmsg(x.addr, v))
     for _ in range(n):
         it = rng.choice(app.insts)
         # toggles that guard sub-trees matter most: bias towards them and towards preset ports
@@ -190,11 +216,28 @@ def prepare(app):
 def bad_ops(rng, app, hist, stats):
     ops = []
     a = app
-    kinds = ["magic", "rver", "app", "aver", "parse", "line", "line", "line"]
+    kinds = ["magic", "rver", "app", "aver", "parse", "line", "line", "line", "tok", "tok"]
     k = rng.choice(kinds)
     stats["bad_" + k] = stats.get("bad_" + k, 0) + 1
     if k == "magic":
         arg = "-"
+    elif k == "tok":
+        # one blank-separated token of a header line replaced by a wrong one, or deleted
+        #   line 0:  %  RT  OSC  v<a>.<b>.<c>  savefile        line 1:  %  <app>  v1.2.3
+        # (only damages that make the header wrong: sscanf's blanks match any amount of white space, and what follows
+        #  the last conversion of the second line is the body's business)
+        ln, idx, alts = rng.choice([
+            (0, 0, ["-", "#", "%%", "/", "RT"]),
+            (0, 1, ["-", "rt", "RTX", "R", "OSC", "XX"]),
+            (0, 2, ["-", "osc", "OSCX", "OS", "RT", "OSX"]),
+            (0, 3, ["-", "0.3.1", "v0.3", "v0", "vx.3.1", "v0,3,1", "v.3.1", "w0.3.1", "v0.3.1.7", "v0.x.1", "v"]),
+            (0, 4, ["-", "garbage", "presetfile", "savefil", "Savefile", "save", "file", "savefile2", "SAVEFILE", "savefiles"]),
+            (1, 0, ["-", "#", "/", "x"]),
+            (1, 1, ["-"]),
+            (1, 2, ["-", "1.2.3", "v1.2", "v1", "vx.2.3", "w1.2.3", "v", "v1.2.x"]),
+        ])
+        alt = rng.choice(alts)
+        arg = "%d:%d:%s" % (ln, idx, "-" if alt == "-" else alt.encode().hex())
     elif k == "rver":
         arg = rng.choice(["256.0.0", "0.300.1", "0.0.1000", "4294967295.0.0"])
     elif k == "app":
@@ -206,7 +249,11 @@ def bad_ops(rng, app, hist, stats):
     else:
         it = rng.choice(a.insts)
         c = rng.random()
-        if c < 0.4:
+        if c < 0.08:
+            m = "%s~-~" % it.addr                            # a line without arguments: a query, the port takes it
+        elif c < 0.12:
+            m = "/zzz~-~"
+        elif c < 0.4:
             m = "/zzz~i~1"                                  # no such port
         elif c < 0.6:
             m = "%sq~i~1" % it.addr                          # longer name
@@ -227,6 +274,7 @@ def generate(rng, tier, stats):
     for a in apps:
         prepare(a)
         yield "sl %d %s - - -" % (a.index, a.desc)
+        yield "meta %d %s - - -" % (a.index, a.desc)
     for i in range(n):
         a = apps[i % len(apps)]
         hist = gen_history(rng, a, stats, 40)
@@ -296,7 +344,9 @@ def expected_lines(app, O):
             if cur != d:
                 last = k
         if last >= 0:
-            exp[base] = "[" + ";".join(SA.vtok(cur) for k, cur, d, it in els[:last + 1]) + "]"
+            # how many of the trailing elements that equal their default a line spells out is not the property's
+            # business: the harness shows every array line with all elements
+            exp[base] = "[" + ";".join(SA.vtok(cur) for k, cur, d, it in els) + "]"
     return exp
 
 
@@ -337,8 +387,18 @@ def oracle(op, out):
             ks = sorted(a for a in set(O) | set(F) if O.get(a) != F.get(a))
             return "state not restored: %s" % [(a, O.get(a), F.get(a)) for a in ks[:4]]
         return None
+    if w[0] == "meta":
+        # the dependency metadata of the compiled tables (what the macros rEnabledBy / rDepends / rDefaultDepends
+        # expand to, lists of up to 16 entries) is what the generated description says
+        want = app.desc.split("|")[3]
+        if out != "M " + want:
+            a, b = out[2:].split(";"), want.split(";")
+            k = next((i for i in range(min(len(a), len(b))) if a[i] != b[i]), min(len(a), len(b)))
+            return "compiled port metadata differs from the declaration at port #%d: compiled %s, declared %s" % (
+                k, a[k] if k < len(a) else None, b[k] if k < len(b) else None)
+        return None
     if w[0] == "bad":
-        if w[4] in ("magic", "rver", "app", "aver", "parse"):
+        if w[4] in ("magic", "rver", "app", "aver", "parse", "tok"):
             if d.get("R") != "neg":
                 return "damaged file (%s) accepted with result %s" % (w[4], d.get("R"))
             return None
@@ -346,11 +406,31 @@ def oracle(op, out):
         m = w[5].split(":", 1)[1]
         addr, tag, payload = m.split("~")
         it = next((x for x in app.insts if x.addr == addr), None)
-        accepts = {"I": "i", "H": "i", "C": "c", "F": "f", "T": "TF", "O": "icS", "Z": "s"}
+        accepts = {"I": "i-", "H": "i-", "C": "c-", "F": "f-", "T": "TF-", "O": "icS-", "Z": "s-"}
         if it is None or tag not in accepts[it.kind]:
             if d.get("R") != "neg":
                 return "file with a line no port accepts (%s) loaded with result %s" % (m, d.get("R"))
         return None
+    return None
+
+
+def known(op, impl_out, model_out, defs):
+    """C12-K9: a float holding +infinity is written `inf (inf)` and does not scan back.  Attributed only when the saved
+    state holds +inf in an enabled float parameter (trigger `hasPosInf`) and the implementation printed exactly what the
+    defect-mirroring model predicts."""
+    ids = [d.get("id") for d in defs]
+    if "C12-K9" not in ids or model_out is None or impl_out != model_out:
+        return None
+    w = op.split()
+    if w[0] not in ("sl", "bad"):
+        return None
+    d = parse_out(impl_out)
+    O = d.get("O")
+    if O is None:
+        # `bad` ops do not print the saved state: the history decides
+        return "C12-K9" if "~f~7f800000" in w[3] and d.get("R") == "neg" else None
+    if any(v == "f7f800000" for v in parse_fields(O).values()) and d.get("H") == "0" and d.get("R") == "neg":
+        return "C12-K9"
     return None
 
 
